@@ -16,6 +16,32 @@ TRUST = (
 
 # property id -> (level, technique, text, note, design section)
 CHECKS = {
+    "C09": (
+        "model_checking",
+        "exhaustive enumeration of all (num_envs, num_steps, batch_size, key) through the real batching API, and visit counts recovered through the real PPO.train (state = per-sample value table)",
+        "Every (num_envs,num_steps) in {1..4}^2, every batch size and every key of K (and key=None) through flatten_axes/batch_indices/gather/batches/sample on a buffer whose every field carries the sample tag; "
+        "end to end the real PPO.train runs with one critic entry per sample and plain SGD so that the trained table equals 0.75^visits, giving the exact per-sample visit counts of every epoch for all "
+        "(num_envs,num_steps,num_batches,num_epochs) configurations.",
+        TRUST,
+        "5/C09",
+    ),
+    "C10": (
+        "model_checking",
+        "iteration automaton driven by the real reset/iteration for all histories n<=7 over full configuration grids, learn() for every total_timesteps; reference schedule automaton",
+        "DQN (num_envs x num_steps x target_update_interval), SAC (tau x policy_frequency x autotune x num_envs) and the on-policy algorithms are stepped with the real jitted iteration and observed after every "
+        "call: iteration counter, environment-step budget, DQN target = online network at the last multiple of the interval (bitwise), float64 Polyak recursion once per iteration, actor/temperature change set = "
+        "arithmetic progression of the policy frequency; learn() is run for every total_timesteps in 0..3*num_envs*num_steps+1 with a recording backend.",
+        TRUST,
+        "5/C10",
+    ),
+    "C18": (
+        "exploration",
+        "exhaustive configuration grids (policy class x space kinds x architectures x leaf overwrites x path spellings) and all ordered mismatch pairs through the real serialize/deserialize; bitwise comparison",
+        "141 policy configurations x keys x special-value leaf overwrites x path spellings are saved and re-loaded with a different key; every leaf is compared bit for bit and every public output on an "
+        "observation alphabet; for every ordered pair of configurations of a class with different parameter shapes the load must raise.",
+        TRUST,
+        "5/C18",
+    ),
     "C01": (
         "model_checking",
         "explicit-state BFS of (wrapper stack x tabular MDP state x counters) with the real env.step; action trees for classic control; reference MDP with auto-reset",
